@@ -1138,6 +1138,9 @@ func (w *World) StepOnce(p *Policy) bool {
 			switch b.kind {
 			case "serve":
 				fault := ""
+				if p.FaultFilter != nil {
+					w.prepare(b.req)
+				}
 				if p.APIFault > 0 && len(p.APIFaults) > 0 && (p.FaultFilter == nil || p.FaultFilter(b.req)) && t.Chance(p.APIFault, "apifault?") {
 					fault = p.APIFaults[t.Pick(len(p.APIFaults), "apifault")]
 				}
@@ -1191,6 +1194,9 @@ func (w *World) StepOnce(p *Policy) bool {
 			w.settle()
 			w.checkInvariants()
 			return w.Violation == nil
+		}
+		if p.FaultFilter != nil {
+			w.prepare(a.req) // the filter may look at the routed fields (verb, resource)
 		}
 		if p.APIFault > 0 && len(p.APIFaults) > 0 && (p.FaultFilter == nil || p.FaultFilter(a.req)) && t.Chance(p.APIFault, "apifault?") {
 			fault = p.APIFaults[t.Pick(len(p.APIFaults), "apifault")]
